@@ -13,6 +13,10 @@ type Scenario struct {
 	Index    int    `json:"index"`
 	Mode     string `json:"mode,omitempty"` // "controlled" (default) | "free"
 	Note     string `json:"note,omitempty"`
+	// Twin asks for a second, independent execution of a derived scenario whose outcome the oracle
+	// compares with this one (metamorphic rule). "no-publicip": the same request without public-IP
+	// collection (and without the providers).
+	Twin string `json:"twin,omitempty"`
 
 	Calls     []Call     `json:"calls"`
 	Flows     []Flow     `json:"flows,omitempty"`
@@ -218,6 +222,21 @@ type ScriptResp struct {
 }
 
 // Clone deep-copies a scenario (via JSON; scenarios are plain data).
+// DeriveTwin returns the scenario the Twin directive describes (nil when there is none).
+func (s *Scenario) DeriveTwin() *Scenario {
+	switch s.Twin {
+	case "no-publicip":
+		t := s.Clone()
+		t.Twin = ""
+		t.HTTP = nil
+		for i := range t.Calls {
+			t.Calls[i].PublicIP = false
+		}
+		return t
+	}
+	return nil
+}
+
 func (s *Scenario) Clone() *Scenario {
 	b, err := json.Marshal(s)
 	if err != nil {
